@@ -1,5 +1,6 @@
 import SSV.Proofs.StreamHandshake
 import SSV.Proofs.StreamSticky
+import SSV.Proofs.StreamTimeout
 /-
 C02 — Tampered, spliced or foreign SS2022 TCP traffic is never delivered as data.
 Property theorems only (lemmas: SSV/Proofs/StreamAuth.lean). The attacker is an arbitrary wire.
@@ -122,18 +123,30 @@ length field to the caller as data; the check reproduces that on the unrepaired 
 Depends on the regenerated fact `readErrorsSticky`. -/
 theorem reader_prefix_continued (C : Crypto) (k : Bytes) (n0 : Nat) (cs : List Bytes)
     (hA : AeadAuth C k (honestOf n0 cs)) (hv : ValidChunks cs) (wire : Bytes) (ops : List ROp) :
-    ∃ rest, cs.flatten = ((SReader.run C ⟨⟨k, n0, [], wire⟩, none⟩ ops).map ROut.bytes).flatten ++ rest := by
+    ∃ rest, cs.flatten = ((SReader.run C ⟨⟨k, n0, [], wire⟩, none, []⟩ ops).map ROut.bytes).flatten ++ rest := by
   rw [srun_bytes]
   exact reader_prefix C k n0 cs hA hv wire ops
 
 /-- after the first failed call every later call on the conn fails with the same error and hands
 over nothing (server conn and client conn alike) -/
-theorem failed_conn_stays_failed (C : Crypto) (r : Reader) (e : Err) (ops : List ROp)
+theorem failed_conn_stays_failed (C : Crypto) (r : Reader) (e : Err) (later : List Bytes) (ops : List ROp)
     (c : CReader) (hc : c.err = some e) (now : Int) :
-    SReader.run C ⟨r, some e⟩ ops = ops.map (fun op => failedOut op e) ∧
+    SReader.run C ⟨r, some e, later⟩ ops = ops.map (fun op => failedOut op e) ∧
     (∀ n, c.readS C now n = (.fail e, c)) ∧ c.writeToS C now = (.copied [] (some e), c) ∧
     (∀ st, c.tunnelS C now st = (.copied [] (some e), c)) :=
-  ⟨failed_run C r e ops, client_failed C c e hc now⟩
+  ⟨failed_run C r e later ops, client_failed C c e hc now⟩
+
+/-- **retryable_iff_nothing_consumed** (narrower repair F22b), on any wire: (a) a transport deadline
+that fires while nothing of the next chunk has been consumed leaves the conn exactly as it was (no
+sticky error; the next call goes on with the next stretch of the transport); (b) once the sticky error
+is set — by a failure that consumed bytes of an unfinished chunk or a chunk that did not authenticate —
+every later call fails with it and hands over nothing. -/
+theorem retryable_iff_nothing_consumed (C : Crypto) (s : SReader) (nx : Bytes) (rest : List Bytes)
+    (herr : s.err = none) (hleft : s.r.left = []) (hwire : s.r.wire = []) (hlater : s.later = nx :: rest) (op : ROp)
+    (r : Reader) (e : Err) (later : List Bytes) (ops : List ROp) :
+    s.step C op = (failedOut op .timeout, { r := { s.r with wire := nx }, err := none, later := rest }) ∧
+    SReader.run C ⟨r, some e, later⟩ ops = ops.map (fun op => failedOut op e) :=
+  ⟨boundary_timeout_unchanged C s nx rest herr hleft hwire hlater op, failed_run C r e later ops⟩
 
 end SSV.C02
 
@@ -146,3 +159,4 @@ end SSV.C02
 #print axioms SSV.C02.response_bound
 #print axioms SSV.C02.reader_prefix_continued
 #print axioms SSV.C02.failed_conn_stays_failed
+#print axioms SSV.C02.retryable_iff_nothing_consumed
